@@ -48,7 +48,8 @@ Definition stop_texts_modelled : bool :=
   && (shape_wait_until_checks_stop || shape_wait_until_ignores_stop)
   && (shape_run_rearms_at_start || shape_run_rearms_at_end) && shape_reset_known
   && shape_machine_stop_std && shape_machine_init_arms && shape_run_flag_writers_known
-  && shape_machine_wait_std && shape_job_execute_std && shape_job_request_stop_std && shape_agent_std
+  && shape_machine_wait_std && shape_job_execute_std && shape_job_request_stop_std
+  && (shape_agent_no_prepare || shape_agent_prepares)
   && shape_clock_no_unknown_methods.
 
 (* ---------- scripts ---------- *)
@@ -104,7 +105,9 @@ Inductive kpc := KBegin | KRearm | KLoop | KSleep | KWake | KSet | KClear | KDon
 
 Inductive rop :=
   | RBegin
-  | RSpawn (s : script) (oracle : list bool)   (* Agent(job).execute(): start the job thread *)
+  | RPrep (b : bool)                           (* Agent.execute() -> job.prepare(): _keep_running = True (repaired,
+                                                  D44); RPrep false = a starter that does not re-arm: a step without access *)
+  | RSpawn (s : script) (oracle : list bool)   (* Agent.execute(): start the job thread *)
   | RNop                                       (* a step without shared access *)
   | RWRun                                      (* Machine.stop(): self._keep_running = False *)
   | RWGo                                       (*                 self._clock.stop(): _keep_going = False *)
@@ -245,6 +248,9 @@ Definition step (sp : shapes) (c : config) (t : tid) : option config :=
           Some (mkCfg (keep_running c) (keep_going c) (ev_flag c) rest (js c) (ks c) (landed c) ((TR, ANone) :: tr c))
       | RNop :: rest =>
           Some (mkCfg (keep_running c) (keep_going c) (ev_flag c) rest (js c) (ks c) (landed c) ((TR, ANone) :: tr c))
+      | RPrep b :: rest =>
+          Some (mkCfg (if b then true else keep_running c) (keep_going c) (ev_flag c) rest (js c) (ks c) (landed c)
+                      ((TR, if b then AWRun true else ANone) :: tr c))
       | RSpawn s o :: rest =>
           Some (mkCfg (keep_running c) (keep_going c) (ev_flag c) rest (js c ++ [new_job s o]) (ks c) (landed c) ((TR, ASpawn) :: tr c))
       | RWRun :: rest =>
@@ -296,9 +302,11 @@ Definition trace (c : config) : list event := rev (tr c).
 
 (* ---------- the requester's programs ---------- *)
 
-(* start the job; later stop it; wait for it; start the same job again; wait for it *)
-Definition prog_stop_rerun (s1 : script) (o1 : list bool) (s2 : script) (o2 : list bool) : list rop :=
-  [RBegin; RSpawn s1 o1; RNop; RWRun; RWGo; RJoin 0; RSpawn s2 o2; RJoin 1].
+(* start the job; later stop it; wait for it; start the same job again; wait for it.
+   p = the starter re-arms the job (Agent.execute with prepare()); p = false: the same job
+   object executed again directly. *)
+Definition prog_stop_rerun (p : bool) (s1 : script) (o1 : list bool) (s2 : script) (o2 : list bool) : list rop :=
+  [RBegin; RPrep p; RSpawn s1 o1; RNop; RWRun; RWGo; RJoin 0; RPrep p; RSpawn s2 o2; RJoin 1].
 
 Definition enabled (sp : shapes) (c : config) (t : tid) : bool :=
   match step sp c t with Some _ => true | None => false end.
